@@ -41,6 +41,38 @@ CLAIMED = {
         "sort_unstable_by_key is modelled as a stable insertion sort; keys are pairwise different under Rep so any sorting permutation gives the same table.",
    technique="Coq proof (abstraction relation over layouts, per-operation refinement lemmas, deque invariant for the iterator) + translator + slot-level differential execution",
    design="5/C10"),
+ 'C11': dict(
+   text="Machine-checked proof (Coq), for any key type with decidable equality and ANY hash-map iteration order (a section variable constrained only to be a permutation): "
+        "unordered_hashcmp/apply never reach the unreachable!() arm; no diff => equal counts for every item; diff => the patched previous has current's count for every item, "
+        "for both representations (Replace iff distinct(cur) < distinct(prev) - distinct(cur) over Z) and every multiplicity (Single/Few/Many with the u8 cast as mod 256 and its "
+        "three guards); diff present => some count differs. Tie: sorted entry lists with their constructor and the patched collections, extracted model vs /repo, incl. "
+        "multiplicities 254..257 and 600; oracle: sort-and-compare.",
+   note=TB + "Assumes a lawful Hash/Eq on items; u8::MAX = 255 is written in the model (not translated). HashMap is modelled as an association list with an arbitrary iteration-order oracle.",
+   technique="Coq proof over count maps for any iteration order + differential execution of the extracted model (entries sorted on both sides)",
+   design="5/C11"),
+ 'C12': dict(
+   text="Machine-checked proof (Coq), any key/value types with decidable equality, any iteration order, both equality modes: never panics; no diff iff the maps are equal; "
+        "a diff patches previous into a map equal to current with every key exactly once (so a changed value ends as the new value, never the old one and never both). "
+        "Tie: sorted entries and patched maps, extracted model vs /repo, both modes, incl. duplicate-key lists for the correspondence only.",
+   note=TB + "Assumes lawful Hash/Eq on keys and a PartialEq on values that decides equality. Maps are lists of pairs with unique keys (the hypothesis NoDup keys is what HashMap/BTreeMap guarantee).",
+   technique="Coq proof over association lists for any iteration order + differential execution of the extracted model",
+   design="5/C12"),
+ 'C19': dict(
+   text="Machine-checked proof (Coq) for ANY base and ANY change list (not only produced ones): array: count k (apply base (Modify d)) = (count k base - removed k d) + inserted k d with "
+        "truncated subtraction, apply base (Replace xs) = xs; flat map: every key of the result is a key of the base or of the diff; recursive map: per-key closed form "
+        "(mr_apply_closed_form, also used by C13). The model has no failure value on these paths. Tie: diffs computed from one pair applied to an unrelated base, model vs /repo; "
+        "oracle: the count formula / key containment evaluated on /repo's output, no panic.",
+   note=TB + "The recursive-map half is exercised through the derive-level checks (C13).",
+   technique="Coq proof (closed form of apply over count maps / association lists) + differential execution on unrelated bases",
+   design="5/C19"),
+ 'C20': dict(
+   text="Machine-checked proof (Coq): a produced change list mentions each (item, direction) at most once and carries exactly the multiplicity delta per item (hence nothing for an "
+        "unchanged item); a produced replacement carries exactly the new collection and is produced only if distinct(cur) < distinct(prev) - distinct(cur) (so at least as many distinct items "
+        "=> change list); flat maps: only single entries, removed keys = exactly the keys whose value is gone or changed, inserted pairs = exactly the pairs current has and previous lacks, both "
+        "duplicate-free. Tie: sorted entry lists model vs /repo; oracle: the same facts checked on /repo's own diff.",
+   note=TB + "Same modelling assumptions as C11/C12.",
+   technique="Coq proof (diff loop invariant, NoDup of produced entries, pigeonhole for the heuristic) + differential execution",
+   design="5/C20"),
 }
 NA_REASON = "check not wired into the manifest yet at this commit (build in progress; see DESIGN.md section 5 for the planned theorem and tie)"
 
